@@ -572,6 +572,7 @@ func ParseArrayExpr(p *ParserZH) syntax.UnionMapList {
 			return ar
 		case TypeAssignMark:
 			isArrayType = false
+			assertHashMapKey(p, exprI)
 			// parse right expr
 			exprR := ParseExpressionMAP(p)
 
@@ -614,6 +615,7 @@ func ParseArrayExpr(p *ParserZH) syntax.UnionMapList {
 
 			exprL := ParseExpressionMAP(p)
 			p.consume(TypeAssignMark)
+			assertHashMapKey(p, exprL)
 			exprR := ParseExpressionMAP(p)
 
 			hm.KVPair = append(hm.KVPair, syntax.HashMapKeyValuePair{
@@ -623,6 +625,16 @@ func ParseArrayExpr(p *ParserZH) syntax.UnionMapList {
 			p.unsetStmtCompleteFlag()
 		}
 	}
+}
+
+// assertHashMapKey - the key of a 【key = value】 pair is a name, a number or a text; anything
+// else before the = (a member access, an arithmetic expression, a call …) is no pair
+func assertHashMapKey(p *ParserZH, key syntax.Expression) {
+	switch key.(type) {
+	case *syntax.ID, *syntax.String:
+		return
+	}
+	panic(p.getInvalidSyntaxCurr())
 }
 
 func tryParseEmptyMapList(p *ParserZH) (bool, syntax.UnionMapList) {
